@@ -208,7 +208,7 @@ func (s *Sim) reopenImage(img *memdb.DB, n int, what string) *Node {
 func (s *Sim) converge(node *Node, finalTip *MBlock, n int) {
 	r := s.r
 	sub := &Sim{r: r, w: s.w, n: node, prof: s.prof, delivered: map[*MBlock]bool{}, doubt: map[*MBlock]bool{}, manualInv: map[*MBlock]bool{}, quiet: true,
-		preKnown: map[*MBlock]bool{}}
+		preKnown: map[*MBlock]bool{}, sub: true}
 	// what the recovered node already knows counts as delivered
 	for _, b := range s.w.Blocks[1:] {
 		if have, _ := node.Chain.HaveBlock(&b.Hash); have {
@@ -221,6 +221,10 @@ func (s *Sim) converge(node *Node, finalTip *MBlock, n int) {
 		if s.delivered[b] || sub.delivered[b] {
 			sub.ensureClock(b)
 			sub.Deliver(b)
+			if sub.gaveUp {
+				r.Probe("convergence-not-judged-on-pruned-node")
+				return
+			}
 		}
 	}
 	sub.CheckState("converge")
@@ -231,6 +235,10 @@ func (s *Sim) converge(node *Node, finalTip *MBlock, n int) {
 		x := s.w.Build(finalTip, BlockOpts{NTx: 1})
 		sub.ensureClock(x)
 		sub.Deliver(x)
+		if sub.gaveUp {
+			r.Probe("convergence-not-judged-on-pruned-node")
+			return
+		}
 		sub.CheckState("converge-extended")
 		if node.Tip() != x {
 			r.Violate("C04", "converges-to-uninterrupted-result", "", "crash after commit %d: even after one more block %v on the uninterrupted run's tip %v the node stays at %v", n, x, finalTip, node.Tip())
